@@ -43,18 +43,17 @@ import OptunaVerif.Model.Basic
           except OSError:
               raise RuntimeError("Error: did not possess lock")
 
-  Between `acquire()` returning and `release()` the holder modifies the journal once (`crit`: the
-  append of `append_logs`; all that matters here is that it moves the journal's mtime).
+  Between `acquire()` returning and `release()` the holder does its work (`crit`: one step, the
+  append of `append_logs`; it does not touch the lock path).
 
-  The two classes differ in (1) the creating call: one `symlink` / `os.open(O_EXCL)` followed by
-  `os.close`; (2) what `os.stat(lock).st_mtime` is: `os.stat` follows the symbolic link, so for the
-  symlink lock it is the mtime of the *journal file* (`Shared.tgt`), for the open lock the mtime of
-  the lock file itself = its creation stamp (nobody writes to it).
+  The two classes differ only in the calls: one `symlink` / `os.open(O_EXCL)` followed by `os.close`
+  to create; `os.lstat` / `os.stat` to sample the mtime.  Since repo fb3aa05 both sample the mtime of
+  the lock file itself = its creation stamp (nobody writes to it; `lstat` does not follow the link â€”
+  before that commit the symlink lock watched the journal's mtime).
   Time stamps are readings of the one virtual clock (`Shared.now`): two files created without a
   `tick` in between carry equal stamps (timestamp granularity).  `uuid4` names are modelled as
   (worker, per-worker serial number): unique by construction (trusted: uuid4 does not collide).
-  Not modelled: asynchronous exceptions (`except BaseException: self.release(); raise`), a dangling
-  symlink target (the journal file exists: `JournalFileBackend.__init__` creates it), the value of
+  Not modelled: asynchronous exceptions (`except BaseException: self.release(); raise`), the value of
   `sleep_secs` (sleeping is a step; how long it lasts is the scheduler's choice of `tick`s).
 -/
 namespace OptunaVerif.FileLock
@@ -109,8 +108,6 @@ deriving DecidableEq, Repr
 structure Shared where
   /-- the lock path: absent, or present with (creator, creation stamp) -/
   lock : Option (Nat Ã— Nat)
-  /-- mtime of the journal file (what `os.stat` of the symlink lock reports) -/
-  tgt : Nat
   /-- the clock -/
   now : Nat
   tmps : List Tmp
@@ -152,11 +149,6 @@ def inCrit : PC â†’ Bool
   | .crit | .relRename => true
   | _ => false
 
-def statVal (cfg : Cfg) (sh : Shared) (stamp : Nat) : Nat :=
-  match cfg.kind with
-  | .symlink => sh.tgt
-  | .openExcl => stamp
-
 def isMine (w n : Nat) (t : Tmp) : Bool := t.by_ == w && t.serial == n
 
 def doRename (sh : Shared) (w : Nat) (wk : Worker) (okPc : PC) (failWk : Worker) : Shared Ã— Worker Ã— Label :=
@@ -186,9 +178,8 @@ def stepW (cfg : Cfg) (sh : Shared) (w : Nat) (wk : Worker) : Shared Ã— Worker Ã
     match sh.lock with
     | none => (sh, { wk with pc := .create }, .statGone)
     | some (_, s) =>
-      let m := statVal cfg sh s
-      if wk.mtime = some m then (sh, { wk with pc := .check }, .statOk m)
-      else (sh, { wk with pc := .resetTimer, mtime := some m }, .statOk m)
+      if wk.mtime = some s then (sh, { wk with pc := .check }, .statOk s)
+      else (sh, { wk with pc := .resetTimer, mtime := some s }, .statOk s)
   | .resetTimer => (sh, { wk with pc := .check, last := sh.now }, .monotonic sh.now)
   | .check =>
     match cfg.grace with
@@ -198,7 +189,7 @@ def stepW (cfg : Cfg) (sh : Shared) (w : Nat) (wk : Worker) : Shared Ã— Worker Ã
   | .tkUnlink => doUnlink sh w wk .tkRestart { wk with pc := .create }
   | .tkRestart => (sh, { wk with pc := .sleep, last := sh.now }, .monotonic sh.now)
   | .sleep => (sh, { wk with pc := .create }, .slept)
-  | .crit => ({ sh with tgt := sh.now }, { wk with pc := .relRename }, .touched)
+  | .crit => (sh, { wk with pc := .relRename }, .touched)
   | .relRename => doRename sh w wk .relUnlink { wk with pc := .idle, failed := wk.failed + 1 }
   | .relUnlink => doUnlink sh w wk .idle { wk with pc := .idle, failed := wk.failed + 1 }
 
@@ -226,7 +217,7 @@ def run (cfg : Cfg) (st : St) : List Ev â†’ St
 def freshWorker : Worker := { pc := .idle, dead := false, mtime := none, last := 0, nren := 0, failed := 0 }
 
 def init (n : Nat) : St :=
-  { sh := { lock := none, tgt := 0, now := 0, tmps := [] }, ws := List.replicate n freshWorker }
+  { sh := { lock := none, now := 0, tmps := [] }, ws := List.replicate n freshWorker }
 
 def isLive (st : St) (w : Nat) : Bool :=
   match st.ws[w]? with
@@ -306,24 +297,23 @@ def f13Symlink : Scenario :=
     evs := stepsOf 0 2 ++ [.crash 0] ++ stepsOf 1 6 ++ stepsOf 2 6 ++ ticks 3 ++ stepsOf 1 3 ++ stepsOf 2 3 ++
            stepsOf 1 5 ++ stepsOf 2 5 }
 
-/-- F13 on the symlink lock needs no overlap of the two takeovers: `os.stat` follows the link, so the
-"lock changed hands" test looks at the journal's mtime.  Waiters 1 and 2 have both watched the dead
-holder's lock for longer than the grace period; 1 takes it over *completely* and enters; 2 then polls,
-sees the unchanged journal mtime, its own timer is still expired, and breaks 1's live lock. -/
+/-- two holders before repo fb3aa05 (the symlink lock watched the journal's mtime), harmless now: waiters 1
+and 2 have both watched the dead holder's lock for longer than the grace period; 1 takes it over
+*completely* and enters; 2 then polls, sees a new lock stamp, restarts its timer and keeps polling. -/
 def f13SymlinkSequential : Scenario :=
   { cfg := { kind := .symlink, grace := some 2 }, n := 3,
     evs := stepsOf 0 2 ++ [.crash 0] ++ stepsOf 1 6 ++ stepsOf 2 6 ++ ticks 3 ++ stepsOf 1 8 ++ stepsOf 2 8 }
 
 /-- the schedule that gave two holders before repo commit d602c3c (ONE waiter past the grace period,
-symlink lock): waiter 1 breaks the dead holder's lock; newcomer 2 creates the lock while 1 sleeps; 1 still
-sees the old journal mtime â€” but it has restarted its timer after the takeover, so it goes on polling. -/
+symlink lock): waiter 1 breaks the dead holder's lock; newcomer 2 creates the lock while 1 sleeps; 1 has
+restarted its timer after the takeover (and, since fb3aa05, sees a new lock stamp), so it goes on polling. -/
 def symlinkAfterTakeover : Scenario :=
   { cfg := { kind := .symlink, grace := some 2 }, n := 3,
-    evs := stepsOf 0 2 ++ [.crash 0] ++ stepsOf 1 6 ++ ticks 3 ++ stepsOf 1 6 ++ stepsOf 2 2 ++ stepsOf 1 4 }
+    evs := stepsOf 0 2 ++ [.crash 0] ++ stepsOf 1 6 ++ ticks 3 ++ stepsOf 1 6 ++ stepsOf 2 2 ++ stepsOf 1 5 }
 
-/-- symlink lock, no crash, every holder punctual: holder 0 has written before waiter 1 samples the journal's
-mtime; 0 releases, 2 acquires between two polls of 1 and has not written yet; 1 has seen the lock held at
-each of its polls and one unchanged journal mtime for longer than the grace period, and breaks 2's lock. -/
+/-- two holders before repo fb3aa05, harmless now (symlink lock, no crash, every holder punctual): 0 releases
+and 2 acquires between two polls of waiter 1, which has seen the lock held at each of its polls; the lock
+file it finds carries a new stamp, so it restarts its timer. -/
 def symlinkHandover : Scenario :=
   { cfg := { kind := .symlink, grace := some 2 }, n := 3,
     evs := stepsOf 0 3 ++ stepsOf 1 5 ++ ticks 1 ++ stepsOf 0 2 ++ stepsOf 2 2 ++ ticks 2 ++ stepsOf 1 9 }
@@ -334,6 +324,11 @@ live holder 0. -/
 def stalledWaiter : Scenario :=
   { cfg := { kind := .openExcl, grace := some 2 }, n := 2,
     evs := stepsOf 0 3 ++ stepsOf 1 4 ++ stepsOf 0 3 ++ ticks 3 ++ stepsOf 1 1 ++ stepsOf 0 3 ++ stepsOf 1 6 }
+
+/-- the same on the symlink lock -/
+def stalledWaiterSymlink : Scenario :=
+  { cfg := { kind := .symlink, grace := some 2 }, n := 2,
+    evs := stepsOf 0 2 ++ stepsOf 1 4 ++ stepsOf 0 3 ++ ticks 3 ++ stepsOf 1 1 ++ stepsOf 0 2 ++ stepsOf 1 5 }
 
 /-- the intended use of the grace period: the holder dies, a single waiter takes the lock over -/
 def soloTakeoverOpen : Scenario :=
